@@ -26,7 +26,7 @@ CLAIMS = {
              'closed on [0,1), and user code only ever sees copies of the stored points; for histories '
              'with resumes, every renumbering of the shells is followed by a full checkpoint write, '
              'so points_<i> is never left next to a stale bound_<i>.',
-        ref='DESIGN.md sections 4 C01, 10.9-10.11, rules M4 M5 L1 L2 L3 L4 A5 Q3 T8 M3 M6 F6 P4 P6 P8 P14 T9 I1', note=TRUST +
+        ref='DESIGN.md sections 4 C01, 10.9-10.13, rules M4 M5 L1 L2 L3 L4 A5 Q3 T8 M3 M6 F6 P4 P6 P8 P14 T9 I1', note=TRUST +
         ' contains() of each bound is numerically what it says (C07 leaf assumption).'),
     'C02': dict(
         technique='lockstep path analysis over per-shell records; dirty=>recompute post-dominance '
@@ -55,8 +55,9 @@ CLAIMS = {
              'order; no operation can drop the batch axis for a one-row batch; the prior only ever '
              'receives a fresh copy; transfer candidates are consumed once; and the rows, the '
              'transfer set and its consumed marks are rewritten by every checkpoint update and '
-             'restored into the attributes they came from.',
-        ref='DESIGN.md sections 4 C03, 10.9-10.11, rules L1-L5 L3b S1 F5 F7 A5 P4 P1 P2 P9 P12 M9 I1', note=TRUST +
+             'restored into the attributes they came from; a pool job fills and returns a private '
+             'copy of the bound, never the caller\'s object (no proposal is handed out twice).',
+        ref='DESIGN.md sections 4 C03, 10.9-10.13, rules L1-L5 L3b S1 F5 F7 A5 P4 P1 P2 P9 P12 M9 I1', note=TRUST +
         ' The user likelihood is assumed pure.'),
     'C05': dict(
         technique='effect analysis over the resolved call graph vs. key tables extracted from '
@@ -74,7 +75,7 @@ CLAIMS = {
              'sweeps every attribute of the fitted networks; a value cached on demand is '
              'invalidated by every write to what it was computed from (serial and pool path).  '
              'Bit-identity itself is not decided.',
-        ref='DESIGN.md section 4 C05 and 10, rules P0 P1 P2 P4 P5 P6 P8 P9 P11 P12 P14 P15 K2 F3 F4', note=TRUST +
+        ref='DESIGN.md section 4 C05, 10 and 10.13, rules P0 P1 P2 P4 P5 P6 P8 P9 P11 P12 P14 P15 K2 F3 F4', note=TRUST +
         ' h5py round-trips values exactly; sklearn training is deterministic given its seed.'),
     'C06': dict(
         technique='typestate analysis on per-function CFGs (atomic-replace protocol), path '
@@ -104,8 +105,10 @@ CLAIMS = {
              '(0, 0.0, False are legal fixed values) and is rebound only under a type or is-None '
              'test of itself; a free parameter is ppf(u) / isf(1 - u) of the coordinate it is stored '
              'to, a (low, high) tuple becomes uniform(loc=low, scale=high-low), a fixed value is '
-             'constant.  The shape of scipy\'s quantile functions is not decided.',
-        ref='DESIGN.md section 4 C15 and 10, rules T1 T1b T7 R1 L1p K1 A1 A1c F1p D1 D2 D3',
+             'constant; a range tuple is rejected unless it has two entries with low < high, and the '
+             'array unit_to_physical fills is float64 whatever the dtype of the input.  The shape '
+             'of scipy\'s quantile functions is not decided.',
+        ref='DESIGN.md section 4 C15, 10 and 10.13, rules T1 T1b T7 R1 L1p K1 A1 A1c F1p D1 D2 D3 D4',
         note=TRUST),
 }
 
@@ -135,7 +138,7 @@ CLAIMS.update({
              'the proposal region times (n_sample - n_reject)/n_sample and the ellipsoid volume is '
              'log|det M| + (n/2) log pi - lgamma(n/2+1) for the matrix M that contains() inverts.  Uniformity and volume calibration as '
              'distributional facts are NOT decided by static analysis.',
-        ref='DESIGN.md sections 4 C08, 10.9-10.11, rules A3 T8 Q1 Q2 P4 M1 M9 K2 V2 I2 N3', note=TRUST),
+        ref='DESIGN.md sections 4 C08, 10.9-10.13, rules A3 T8 Q1 Q2 P4 M1 M9 K2 V2 I2 N3', note=TRUST),
     'C09': dict(
         technique='writer/reader/updater table extraction and comparison; definite-assignment '
                   'analysis of constructors against the observation interface read set',
@@ -153,7 +156,7 @@ CLAIMS.update({
              'exactly the indices 0..N-1 (range bounds evaluated, probed while-loops start at 0, '
              'advance by one and continue while the key exists); a class chosen by comparing a '
              'stored tag with a string is the class of that name.',
-        ref='DESIGN.md sections 4 C09, 10.9-10.11, rules P1-P5 P7-P13 G2 K2', note=TRUST +
+        ref='DESIGN.md sections 4 C09, 10.9-10.13, rules P1-P5 P7-P13 G2 K2', note=TRUST +
         ' Exact array round-trip through HDF5 and the sklearn attribute sweep are trusted.'),
     'C10': dict(
         technique='who-may-call / who-may-write tables, CFG loop contract, def-use accounting',
@@ -181,7 +184,7 @@ CLAIMS.update({
              'arithmetic (scalar and vectorised evaluation see the same coordinates); no parameter '
              'that may be its mutable default object is modified in place, no unlisted global '
              'write, no class-level mutable attribute.',
-        ref='DESIGN.md sections 4 C11, 10.9-10.11, rules F1-F5 F7 F8 F9 G1 G3 K2', note=TRUST +
+        ref='DESIGN.md sections 4 C11, 10.9-10.13, rules F1-F5 F7 F8 F9 F10 G1 G3 K2', note=TRUST +
         ' NumPy / SciPy / sklearn are deterministic given their seeds.'),
     'C12': dict(
         technique='control-dependence phase guards, who-may-write tables, extend-prefix lockstep '
@@ -193,8 +196,10 @@ CLAIMS.update({
              'after the old ones; the exploration boundaries are recorded after the removal; the '
              'discard setter recomputes every shell on every path as a pure function of stored '
              'arrays and flags, with no lazy sampling in log_v; the flag is persisted by the '
-             'incremental update.',
-        ref='DESIGN.md sections 4 C12, 10.9-10.11, rules T6 F6 L1 L3 T3 T4 A2 A6 P4 P9 P12 I1', note=TRUST),
+             'incremental update and comes back from a checkpoint as the bool its setter accepts.  '
+             'Known finding K1 (listed in known_findings.json): the discard argument of run() is '
+             'ignored once exploration has ended.',
+        ref='DESIGN.md sections 4 C12, 10.9-10.13 (known finding K1), rules T6 F6 L1 L3 T3 T4 A2 A6 P4 P9 P12 I1', note=TRUST),
     'C13': dict(
         technique='lockstep path analysis of the parallel per-ellipsoid records, '
                   'validate-before-mutate and post-dominance (cache reset) on CFGs',
@@ -208,8 +213,9 @@ CLAIMS.update({
              'uses n_points_min as threshold and as size, a refused operation has not touched '
              'ellipsoids or points, every change is followed by reset(), and no function of the '
              'package writes into an array it was handed (so the recorded construction points '
-             'stay what they were).',
-        ref='DESIGN.md sections 4 C13, 10.9-10.12, rules L1 L1d L6 L0 T1 T9 S2 S3 F9 N3', note=TRUST),
+             'stay what they were); a union read back from a checkpoint carries every member of the '
+             'record.',
+        ref='DESIGN.md sections 4 C13, 10.9-10.13, rules L1 L1d L6 L0 T1 T9 S2 S3 F9 N3', note=TRUST),
     'C14': dict(
         technique='lockstep rule on local view arrays; purity / parameter-guarded draw; '
                   'path-wise symbolic evaluation of the repeat counts',
